@@ -93,3 +93,198 @@ pub(crate) fn mk(msg_cnt: usize) -> State {
     s.msg_cnt = msg_cnt;
     s
 }
+
+// ------------------------------------------------------------ C09: one-step simulation
+
+use crate::rt::execution::verif as ev;
+use crate::rt::object::verif as ov;
+use crate::rt::scheduler::verif as sched;
+use crate::rt::synchronize::verif as sv;
+use crate::rt::thread::verif as tv;
+
+fn eq(a: &Raw, b: &Raw) -> bool {
+    le(a, b) && le(b, a)
+}
+
+/// World: 3 threads, one channel (object 0) holding `k` queued messages whose
+/// send-time views are symbolic.  Every non-acting thread is symbolic: role 0
+/// unrelated (Runnable), 1 unrelated (Blocked elsewhere), 2 pending send
+/// (Runnable), 3 pending recv (Blocked iff the channel is empty -- the
+/// coupling with the reference "blocked receivers" set).
+fn world(acting: usize, k: usize) -> (crate::rt::Execution, Channel, [u8; 3], [Raw; 2], Raw) {
+    let mut e = ev::mk_exec(3, 1, None);
+    tv::activate(&mut e.threads, acting);
+    let mut st = blank_state();
+    st.msg_cnt = k;
+    let ss: Raw = kani::any();
+    st.sender_synchronize = sv::mk(ss);
+    let mut msgs = [[0u16; MAX_THREADS]; 2];
+    let mut i = 0;
+    while i < k {
+        let m: Raw = kani::any();
+        // each message carries the sender view at its send; later ones include earlier ones
+        msgs[i] = m;
+        st.receiver_synchronize.push_back(sv::mk(m));
+        i += 1;
+    }
+    let r = e.objects.insert(st);
+    let mut roles = [0u8; 3];
+    let mut t = 0;
+    while t < 3 {
+        let c: Raw = kani::any();
+        tv::th(&mut e.threads, t).causality = vv(c);
+        if t != acting {
+            let role: u8 = kani::any();
+            kani::assume(role <= 3);
+            roles[t] = role;
+            let (code, opn) = match role {
+                0 => (0, None),
+                1 => (2, None),
+                2 => (0, Some(ov::op(0, crate::rt::object::Action::Channel(Action::MsgSend)))),
+                _ => (if k == 0 { 2 } else { 0 }, Some(ov::op(0, crate::rt::object::Action::Channel(Action::MsgRecv)))),
+            };
+            tv::th(&mut e.threads, t).state = tv::state_from_code(code);
+            tv::th(&mut e.threads, t).operation = opn;
+        }
+        t += 1;
+    }
+    (e, Channel { state: r }, roles, msgs, ss)
+}
+
+fn code_of(e: &crate::rt::Execution, t: usize) -> u8 {
+    tv::state_code(&tv::th_ref(&e.threads, t).state)
+}
+
+fn clock(e: &crate::rt::Execution, t: usize) -> Raw {
+    vv_raw(&tv::th_ref(&e.threads, t).causality)
+}
+
+fn send_case(acting: usize, k: usize) {
+    let (mut e, ch, roles, msgs, ss) = world(acting, k);
+    let cur = clock(&e, acting);
+    let others = [clock(&e, 0), clock(&e, 1), clock(&e, 2)];
+    sched::enter(&mut e, || ch.send(Location::disabled()));
+    assert!(sched::switches() == 0);
+    let st = ch.state.get(&e.objects);
+    // the message is queued behind the existing ones, stamped with the view of
+    // this send and of every earlier send
+    assert!(st.msg_cnt == k + 1);
+    assert!(st.receiver_synchronize.len() == k + 1);
+    let stamp = max_raw(&ss, &cur);
+    assert!(eq(&sv::raw(&st.sender_synchronize), &stamp));
+    assert!(eq(&sv::raw(&st.receiver_synchronize[k]), &stamp));
+    let mut i = 0;
+    while i < k {
+        assert!(eq(&sv::raw(&st.receiver_synchronize[i]), &msgs[i]));
+        i += 1;
+    }
+    let mut t = 0;
+    while t < 3 {
+        assert!(eq(&clock(&e, t), &others[t]));
+        if t != acting {
+            let now = code_of(&e, t);
+            match roles[t] {
+                // a receiver blocked on the empty channel can run again
+                3 => assert!(now == 0),
+                1 => assert!(now == 2),
+                _ => assert!(now == 0),
+            }
+        }
+        t += 1;
+    }
+    kani::cover!(roles[(acting + 1) % 3] == 2 && roles[(acting + 2) % 3] == 3, "another sender pending and a receiver waiting");
+    kani::cover!(roles[(acting + 1) % 3] == 3 && roles[(acting + 2) % 3] == 3, "two receivers waiting");
+    std::mem::forget(e);
+}
+
+vharness! {
+    /// @prop C09,C05,C10 @tier quick @mode fast @cost 2 @funcs Channel::send,Ref::branch_action,rt::branch,Execution::schedule,Synchronize::sync_store @bounds 3 threads, 1 empty channel, the other two threads symbolic (unrelated / blocked elsewhere / pending send / pending recv), all clock values, sender = thread 1
+    /// send on an empty channel: count becomes 1, the message is stamped with the sender's view, every receiver blocked on the channel becomes runnable (whatever other threads are pending on it), nobody else changes.
+    #[cfg_attr(kani, kani::unwind(8))]
+    fn channel_send_empty_t1() { send_case(1, 0) }
+}
+
+vharness! {
+    /// @prop C09,C10 @tier quick @mode fast @cost 2 @funcs Channel::send @bounds as channel_send_empty_t1 with one message already queued, sender = thread 0
+    /// send on a non-empty channel appends behind the queued message; the stamp accumulates earlier sends (FIFO hand-over order).
+    #[cfg_attr(kani, kani::unwind(8))]
+    fn channel_send_nonempty_t0() { send_case(0, 1) }
+}
+
+fn recv_case(acting: usize, k: usize) {
+    let (mut e, ch, roles, msgs, ss) = world(acting, k);
+    let cur = clock(&e, acting);
+    let others = [clock(&e, 0), clock(&e, 1), clock(&e, 2)];
+    let empty = sched::enter(&mut e, || {
+        let em = ch.is_empty();
+        ch.recv(Location::disabled());
+        em
+    });
+    assert!(!empty);
+    assert!(sched::switches() == 0);
+    let st = ch.state.get(&e.objects);
+    assert!(st.msg_cnt == k - 1);
+    assert!(st.receiver_synchronize.len() == k - 1);
+    // exactly the oldest message is consumed: the receiver learns its send-time
+    // view and nothing about later sends
+    assert!(eq(&clock(&e, acting), &max_raw(&cur, &msgs[0])));
+    if k == 2 {
+        assert!(eq(&sv::raw(&st.receiver_synchronize[0]), &msgs[1]));
+    }
+    assert!(eq(&sv::raw(&st.sender_synchronize), &ss));
+    let mut t = 0;
+    while t < 3 {
+        if t != acting {
+            assert!(eq(&clock(&e, t), &others[t]));
+            let now = code_of(&e, t);
+            match roles[t] {
+                // other receivers are disabled exactly when the channel ran empty
+                3 => assert!(now == if k == 1 { 2 } else { 0 }),
+                1 => assert!(now == 2),
+                _ => assert!(now == 0),
+            }
+        }
+        t += 1;
+    }
+    kani::cover!(roles[(acting + 1) % 3] == 3, "another receiver pending");
+    kani::cover!(roles[(acting + 1) % 3] == 2, "a sender pending");
+    std::mem::forget(e);
+}
+
+vharness! {
+    /// @prop C09,C05,C10 @tier quick @mode fast @cost 2 @funcs Channel::recv,Channel::is_empty,Ref::branch_disable,Synchronize::sync_load @bounds 3 threads, channel with 1 queued message, other threads symbolic, receiver = thread 0
+    /// recv of the last message: count 0, the receiver acquires that message's send view, other pending receivers are disabled (channel empty), pending senders are not.
+    #[cfg_attr(kani, kani::unwind(8))]
+    fn channel_recv_last_t0() { recv_case(0, 1) }
+}
+
+vharness! {
+    /// @prop C09,C10 @tier quick @mode fast @cost 2 @funcs Channel::recv @bounds channel with 2 queued messages, receiver = thread 2
+    /// recv with two queued messages takes the older one only: its view is acquired, the younger message stays queued, nobody is disabled.
+    #[cfg_attr(kani, kani::unwind(8))]
+    fn channel_recv_first_of_two_t2() { recv_case(2, 2) }
+}
+
+vharness! {
+    /// @prop C09,C05 @tier quick @mode fast @cost 2 @funcs Channel::is_empty,Ref::branch_disable,rt::branch,Execution::schedule @bounds 3 threads, empty channel, receiver = thread 1, thread 0 runnable
+    /// recv on an empty channel blocks: the caller becomes Blocked with a pending recv on the channel and loom asks for a context switch (first half of the real recv through the real branch_disable/schedule).
+    #[cfg_attr(kani, kani::unwind(8))]
+    fn channel_recv_blocks_t1() {
+        let acting = 1;
+        let (mut e, ch, roles, _msgs, _ss) = world(acting, 0);
+        tv::th(&mut e.threads, 0).state = tv::state_from_code(0);
+        let empty = sched::enter(&mut e, || {
+            let em = ch.is_empty();
+            ch.state.branch_disable(Action::MsgRecv, em, Location::disabled());
+            em
+        });
+        assert!(empty);
+        assert!(code_of(&e, acting) == 2);
+        assert!(sched::switches() == 1);
+        let next = tv::active_index(&e.threads);
+        assert!(next == Some(0) || (next == Some(2) && (roles[2] == 0 || roles[2] == 2)));
+        assert!(ch.state.get(&e.objects).msg_cnt == 0);
+        kani::cover!(next == Some(0), "thread 0 runs next");
+        std::mem::forget(e);
+    }
+}
